@@ -272,6 +272,18 @@ func checkAllTXIDs(e *hist.Env, res *vf.Result) int {
 			res.Violate(key, "Restore(TXID=%d) is not a committed state: %s", n, why)
 			continue
 		}
+		// "exactly one state": the plan-chosen restore (which may go through a
+		// snapshot or compacted file) must denote the same commit as applying
+		// the level-0 files 1..n.
+		if n <= e.Arch.Max() {
+			if l0img, err := e.Arch.Image(n); err == nil {
+				res.Evals++
+				if k0, why0 := e.CheckConsistent(l0img); why0 == "" && k0 != k {
+					res.Violate("txid-denotes-two-states", "TXID %d restores to commit k=%d through the replica's plan but to k=%d through level-0 files 1..%d", n, k, k0, n)
+					continue
+				}
+			}
+		}
 		if k < lastK {
 			res.Violate("txid-not-monotone", "TXID %d restores commit k=%d but lower TXID %d restored k=%d", n, k, lastN, lastK)
 		}
@@ -412,8 +424,9 @@ func runB(s spec, dir string, res *vf.Result) *vf.Result {
 			var err error
 			var name string
 			if s.Kind == "S" {
-				// a checkpoint that runs without a write barrier, immediately followed by a snapshot
-				m := []string{"FULL", "RESTART", "TRUNCATE", "FULL"}[r.Intn(4)]
+				// a checkpoint (non-PASSIVE modes run without a write barrier; with the 1 ms busy timeout
+				// the bookkeeping write after any mode often fails), immediately followed by a snapshot
+				m := []string{"FULL", "RESTART", "TRUNCATE", "PASSIVE", "PASSIVE"}[r.Intn(5)]
 				if err := e.LS.Checkpoint(ctx, m); err == nil {
 					hmu.Lock()
 					res.Count("S_checkpoint_"+m+"_ok", 1)
